@@ -376,6 +376,45 @@ def ordered_edit_rule(fx, scope, pat=ORDER_EDIT):
     return out
 
 
+def discard_rule(fx, scope, op_path, comp_adt="compiler::Compiler"):
+    """[(fn, what, span, ok, why)]: a `break` / `continue` that leaves a finally block replaces the completion the block was entered with.
+    The parked completion lives in one slot of the frame and `FinallyEnd` takes up whatever is there, so the jump has to empty the slot:
+    every function that emits Op::Break / Op::Continue calls, on the way to the emission, a function that can emit Op::DiscardCompletion, and
+    that decision reads a field of the compiler that the compiler of `finally` blocks (the emitter of Op::FinallyEnd) writes."""
+    out = []
+    disc = {p for p, g in fx.fns.items() if not g.derived and scope(g) and op_aggs(g, op_path, "DiscardCompletion")}
+    reads = set()
+    for p in disc:
+        g = fx.fns[p]
+        for bi, kind, pl, sp in M.all_places(g):
+            if kind in ("r", "b"):
+                for a_, v_, n_ in F.place_fields(pl):
+                    if a_ == comp_adt:
+                        reads.add(n_)
+    for p, f in sorted(fx.fns.items()):
+        if f.derived or f.closure or not scope(f):
+            continue
+        for variant in ("Break", "Continue"):
+            for bi, sp in op_aggs(f, op_path, variant):
+                calls = [b2 for b2, t in f.calls() if t[1].get("d") in disc]
+                ok = p in disc or any(f.dominates(b2, bi) for b2 in calls)
+                out.append((f, "emits Op::%s" % variant, sp, ok,
+                            "emits Op::%s without a preceding decision to emit Op::DiscardCompletion" % variant))
+        fe = op_aggs(f, op_path, "FinallyEnd")
+        if fe:
+            writes = set()
+            for bl in f.blocks:
+                for s_ in bl["s"]:
+                    if s_[0] == "a":
+                        for a_, v_, n_ in F.place_fields(s_[1]):
+                            if a_ == comp_adt:
+                                writes.add(n_)
+            ok = bool(reads & writes)
+            out.append((f, "compiles finally blocks", fe[0][1], ok,
+                        "emits Op::FinallyEnd but writes none of the compiler fields the discard decision reads (%s): a jump cannot tell that it leaves a finally block" % (sorted(reads) or "none")))
+    return out
+
+
 def run(fx, ck, OP):
     comp = lambda g: g.file.startswith("src/compiler")
     ck.rule("R9.switch-default-last", "the loop emitting a switch's case tests emits no unconditional jump it does not patch itself (the default clause is reached only after every test failed)", floor=1)
@@ -423,6 +462,29 @@ def run(fx, ck, OP):
     if got21 != [("bad_delete", "swap_remove", False), ("good_delete", "shift_remove", True)]:
         ck.closed_fail.append("R21 control failed: fixture reports %s" % got21)
     ck.note("R21 controls: fixture bad_delete (swap_remove) reported, good_delete (shift_remove) silent")
+    # ---- R24 a jump out of a finally block discards the parked completion
+    ck.rule("R24.jump-out-of-finally-discards", "every emitter of Op::Break / Op::Continue first decides whether to emit Op::DiscardCompletion, from a compiler field that the "
+            "compiler of finally blocks maintains; the VM arm of that opcode empties pending_completion", floor=3)
+    for f24, what24, sp24, ok24, why24 in discard_rule(fx, comp, OP):
+        ck.instance("R24.jump-out-of-finally-discards", "%s %s" % (f24.path, what24), F.short_span(sp24), ok=ok24)
+        if not ok24:
+            ck.finding("R24.jump-out-of-finally-discards", "R24.jump-out-of-finally-discards/%s/%s" % (f24.path, what24.split("::")[-1].replace(" ", "-")), F.short_span(sp24),
+                       "`%s` %s: the completion a finally block was entered with stays parked when a `break` or `continue` leaves the block, and the next FinallyEnd of the "
+                       "function takes it up - `for(;;){ try { return 1 } finally { break } } try {} finally {} return 2` returns 1" % (f24.path, why24))
+    vm24 = [g for p, g in fx.fns.items() if p.endswith("BytecodeVM::execute_op") and not g.closure]
+    ok_vm = False
+    if vm24:
+        for b24, en24, pl24, arms24, other24, rest24 in M.enum_switches(fx, vm24[0]):
+            if str(en24).endswith("bytecode::Op") and "DiscardCompletion" in arms24:
+                reg24 = M.dominated_region(vm24[0], arms24["DiscardCompletion"])
+                for b2 in reg24:
+                    for s_ in vm24[0].blocks[b2]["s"]:
+                        if s_[0] == "a" and any(n_ == "pending_completion" for a_, v_, n_ in F.place_fields(s_[1])):
+                            ok_vm = True
+    ck.instance("R24.jump-out-of-finally-discards", "execute_op: the arm of Op::DiscardCompletion writes pending_completion", None, ok=ok_vm)
+    if not ok_vm:
+        ck.finding("R24.jump-out-of-finally-discards", "R24.jump-out-of-finally-discards/vm-arm", None,
+                   "the VM has no arm for Op::DiscardCompletion that empties pending_completion: nothing forgets the completion of a finally block that a jump leaves")
     # ---- R13 string positions have units
     import strunits
     ck.rule("R13.string-units", "units check over string natives: no script number from a byte quantity (U-out), no byte-position API fed a character quantity (U-in), "
